@@ -38,7 +38,11 @@ RefPaths == {p \in {(IF lead THEN <<SL>> ELSE <<>>) \o Join(ss) \o (IF trail /\ 
 (* a relative-path reference whose first segment contains ":" would parse as a scheme: none generated *)
 QF == {<< << RepR >>, <<>> >>, << <<>>, <<>> >>, << << <<121>> >>, <<>> >>, << <<>>, << <<115>> >> >>, << << <<121>> >>, << <<115>> >> >>,
        << << <<>> >>, <<>> >>, << <<>>, << <<>> >> >>}
+(* segments holding an escaped slash ("%2F"): decoded they contain "/", but they are single segments of a relative path *)
+PctSlash == <<37, 50, 70>>
+EscRefPaths == {PctSlash \o <<a>>, PctSlash \o <<a, SL, b>>, <<a, SL>> \o PctSlash, <<DOT, DOT, SL>> \o PctSlash \o <<b>>, PctSlash}
 Refs == {[scheme |-> <<>>, auth |-> <<>>, path |-> p, query |-> qf[1], frag |-> qf[2]] : p \in RefPaths, qf \in QF}
+    \cup {[scheme |-> <<>>, auth |-> <<>>, path |-> p, query |-> <<>>, frag |-> <<>>] : p \in EscRefPaths}
     \cup {[scheme |-> << <<102, 116, 112>> >>, auth |-> << au >>, path |-> p, query |-> <<>>, frag |-> <<>>] :
              au \in {<<120>>, <<102, 97, 223, 46, 120>>}, p \in {<<>>, <<SL, a, SL, DOT, DOT, SL, b>>}}
     (* (escapes are compared fully quoted, which would also IDNA-encode the other host: with the ASCII host only) *)
